@@ -197,7 +197,7 @@ fn gather_race(cfg: &[u8], attempts: usize) -> Result<(), (String, String)> {
                     s.spawn(move || {
                         ready.fetch_add(1, std::sync::atomic::Ordering::SeqCst);
                         while ready.load(std::sync::atomic::Ordering::SeqCst) < nthreads {
-                            std::hint::spin_loop();
+                            crate::iohelp::spin_or_yield();
                         }
                         reg.gather()
                     })
